@@ -177,7 +177,8 @@ impl ThreadCtx<'_> {
     }
     fn log(&mut self) {
         let id = self.opid();
-        let ncall = self.r.gen_range(0..=6);
+        // (one call in twenty carries dozens of tags: "all other tags in the order given" must hold for long lists too)
+        let ncall = if self.r.gen_bool(0.05) { self.r.gen_range(30..=45) } else { self.r.gen_range(0..=6) };
         let mut tags: Vec<Tag> = vec![];
         let mut desc: Vec<Value> = vec![];
         let mpos = self.r.gen_range(0..=ncall);
@@ -418,7 +419,13 @@ pub fn run_threads(args: &Args, mut out: Out) {
                 barrier.wait();
                 for _ in 0..nops {
                     match c.r.gen_range(0..100) {
-                        0..=19 => c.add_tag(),
+                        0 => {
+                            // a thread that has collected a long list of tags
+                            for _ in 0..c.r.gen_range(28..=36) {
+                                c.add_tag();
+                            }
+                        }
+                        1..=19 => c.add_tag(),
                         20..=24 => c.clear(),
                         25..=64 => c.log(),
                         65..=76 => c.wrapped(),
